@@ -5,8 +5,8 @@ import LokiModel.C03.Model
 `tilesB R ie n` is a statement about texts and spans only (no status flag is read): every node has a `Source`; every node is of a
 kind the conservative visitor prints from its source; for every `Loop` / block `Conditional` / `Section` the text is exactly what
 the `INVALID_CHILDREN` branch re-assembles from the first line, the `ELSE` line, the line at index `l1 - l0` and the emitted texts
-of the children (`emit`: the text, for an inline comment its blanks and text only, with `apply_label` on top).  `ie` follows the
-`is_elseif` keyword the way `**kwargs` carries it.
+of the children (`emit`: the text, for an inline comment its blanks and text only, with `apply_label` on top).  `ie` is the
+`is_elseif` keyword: set for the `ELSE IF` branch only, consumed by the next `Conditional`.
 -/
 namespace LokiModel.C03
 
@@ -14,7 +14,7 @@ namespace LokiModel.C03
 def out1 (k : Kind) (s : Src) : Lines := if k = .comment then commentValid s.text else s.text
 
 def emit (n : Node) : Res :=
-  applyLabel n.info.label (match n.src with | some s => .some (out1 n.info.kind s) | none => .none)
+  applyLabelC n.info.label (match n.src with | some s => .some (out1 n.info.kind s) | none => .none)
 
 def emits : List Node → List Res
   | [] => []
@@ -30,11 +30,11 @@ def tilesB (R : Render) (ie : Bool) : Node → Bool
       | .assign | .call | .decl | .imprt | .comment => body.isEmpty && els.isEmpty
       | .section => els.isEmpty && tilesLB R ie body && joinRes (emits body) == .some s.text
       | .loop => els.isEmpty && tilesLB R ie body &&
-          recover info s els.isEmpty ie (joinRes (emits body)) .none == .some s.text
+          recover info s els.isEmpty (joinRes (emits body)) .none == .some s.text
       | .cond =>
-          !info.inline && tilesLB R ie body &&
-          (if info.elseif then !ie && tilesLB R true els else tilesLB R ie els) &&
-          recover info s els.isEmpty ie (joinRes (emits body)) (joinRes (emits els)) == .some s.text
+          !info.inline && tilesLB R false body &&
+          (if info.elseif then tilesLB R true els else tilesLB R false els) &&
+          recover info s els.isEmpty (joinRes (emits body)) (joinRes (emits els)) == .some s.text
       | .scoped | .lother | .iother => false
 def tilesLB (R : Render) (ie : Bool) : List Node → Bool
   | [] => true
@@ -124,18 +124,14 @@ theorem cgen_of_tiles (R : Render) : ∀ (n : Node) (d : Nat) (ie : Bool),
         · have hi' := beq_iff_eq.mp hi
           obtain ⟨⟨⟨hinl, htb⟩, hte⟩, hloc⟩ := ht
           simp only [assemble, hk, hi', out1, hinl]
-          rw [cgenItems_of_tiles R body (d + conditionalIndent) ie htb hfb]
+          rw [cgenItems_of_tiles R body (d + conditionalIndent) false htb hfb]
           cases hei : info.elseif
           · simp only [hei] at hte hloc ⊢
-            rw [cgenItems_of_tiles R els (d + conditionalIndent) ie hte hfe]
+            rw [cgenItems_of_tiles R els (d + conditionalIndent) false hte hfe]
             simpa using hloc
-          · simp only [hei] at hte hloc ⊢
-            cases ie with
-            | true => simp at hte
-            | false =>
-              simp only [Bool.not_false, Bool.true_and, if_true] at hte
-              rw [cgenItems_of_tiles R els d true hte hfe]
-              simpa using hloc
+          · simp only [hei, if_true] at hte hloc ⊢
+            rw [cgenItems_of_tiles R els d true hte hfe]
+            simpa using hloc
 theorem cgenItems_of_tiles (R : Render) : ∀ (ns : List Node) (d : Nat) (ie : Bool),
     tilesLB R ie ns = true → flagsOKL ns = true → cgenItems R d ie ns = emits ns
   | [] => by intros; rfl
